@@ -4,6 +4,17 @@ use mdns_sd::verif_hooks as vh;
 
 pub fn run_txt(t: &[&str]) -> String {
     match t[0] {
+        "txt_esc" => {
+            // escape_instance_name on the instance label, then the encoder's label split of
+            // "<escaped>.<type>": prints the escaped string and the labels
+            let Some(l) = unhex_str(t[1]) else { return "SKIP".into() };
+            let Some(ty) = unhex_str(t[2]) else { return "SKIP".into() };
+            let e = vh::escape_instance_name(&l);
+            let full = format!("{e}.{ty}");
+            let full = full.strip_suffix('.').unwrap_or(&full).to_string();
+            let labels: Vec<String> = vh::parse_escaped_name(&full).iter().map(|x| hex(x.as_bytes())).collect();
+            format!("OK {} {}", hex(e.as_bytes()), if labels.is_empty() { "-".to_string() } else { labels.join(",") })
+        }
         "txt_new" => {
             let Some(ps) = parse_props(t[1]) else { return "SKIP".into() };
             match vh::service_info_new_txt(&ps) {
